@@ -14,9 +14,10 @@ from ..enc import blist
 from .. import world as W
 
 PARAMS = {'DEF': (11, 'ATGAC'), 'K1': (5, 'AT'), 'K2': (6, 'AT'), 'K3': (5, 'AC'), 'K4': (5, 'GT'),     # K4's prefix = revcomp(K3's)
-          'K5': (11, 'ATGACATGAC'), 'K6': (11, 'ATGACATG')}       # long prefixes: K6's is the first 8 nt of K5's, DEF's the first 5 of both
+          'K5': (11, 'ATGACATGAC'), 'K6': (11, 'ATGACATG'), 'K7': (32, 'AT')}           # K7 / K1: k at either end of the legal range       # long prefixes: K6's is the first 8 nt of K5's, DEF's the first 5 of both
 MAIN_SET = ['DEF', 'K1', 'K2', 'K3', 'K4']
 LONG_SET = ['DEF', 'K5', 'K6']
+EDGE_SET = ['DEF', 'K7']
 
 
 def make_genome(rng, base=None):
@@ -69,6 +70,9 @@ def command(env, row, out, idx):
         args += ['dist', '-o', out, '--no-progress']
         if e == 'partial':
             args += (['-k', '5'] if idx % 2 else ['-p', 'AT'])
+        elif e == 'invalid':
+            # both options given, k outside 5..32 (just outside and far outside), prefix of the other parameter sets in play
+            args += [['-k', '4', '-p', 'AT'], ['-k', '33', '-p', 'AT'], ['-k', '40', '-p', 'AT'], ['-k', '0', '-p', 'ATGAC'], ['-k', '-3', '-p', 'AT']][idx % 5]
         elif e != 'none':
             k, p = PARAMS[e]
             args += ['-k', str(k), '-p', p if idx % 3 else p.lower()]
@@ -110,7 +114,7 @@ def run_set(ctx, tmp, seed, names=MAIN_SET):
         table.sort(key=core.canon)
         if ctx.tier == 'quick':
             # quick: every error row involving two pinned sources, and a third of the rest
-            table = [r for i, r in enumerate(table) if (not r['expect']['ok'] and r['explicit'] != 'partial') or i % 3 == 0]
+            table = [r for i, r in enumerate(table) if (not r['expect']['ok'] and r['explicit'] not in ('partial', 'invalid')) or i % 3 == 0]
         jobs, outs = [], []
         for i, row in enumerate(table):
             out = os.path.join(tmp, f'out{i}.csv')
@@ -152,6 +156,9 @@ def run(ctx):
         sub = os.path.join(tmp, 'long')
         os.makedirs(sub)
         recs += run_set(ctx, sub, ctx.seed + 7, LONG_SET)          # prefixes longer than 8 nt that agree on their first 5 / 8 nucleotides
+        sub = os.path.join(tmp, 'edge')
+        os.makedirs(sub)
+        recs += run_set(ctx, sub, ctx.seed + 9, EDGE_SET)          # a parameter set with k = 32, the largest legal value
         n, bad = tlc.judge('Judge_C14', recs)
         for i, why in bad:
             r = recs[i]
